@@ -483,3 +483,66 @@ func TestC16Origin(t *testing.T) {
 		}
 	}
 }
+
+// nyctLarge builds an NYCT feed of n entities from a generated small one: its NYCT trip updates are repeated under distinct
+// trip ids (the alphanumeric tail keeps the NYCT id format) and train ids.
+func nyctLarge(t *rapid.T, zone string, n int) *rgen.Msg {
+	base, _, _, _ := genNyctMsg(t, zone)
+	var tus []rgen.Entity
+	for _, e := range base.Entities {
+		if e.TU != nil && e.TU.Trip.Nyct != nil && e.TU.Trip.TripID != nil {
+			tus = append(tus, e)
+		}
+	}
+	m := &rgen.Msg{Timestamp: base.Timestamp, Entities: append([]rgen.Entity(nil), base.Entities...)}
+	if len(tus) == 0 { // the generated feed has no NYCT trip update: start from a fixed one
+		tus = append(tus, rgen.Entity{TU: &rgen.TripUpdate{Trip: rgen.TripDesc{TripID: rgen.P("036000_M..N"), RouteID: rgen.P("M"), StartDate: rgen.P("20231114"),
+			Nyct: &rgen.NyctTrip{Direction: rgen.P(int32(3)), IsAssigned: rgen.P(true), TrainID: rgen.P("0M 0600 MET/CTL")}},
+			STUs: []rgen.STU{{StopID: rgen.P("M11N"), Arr: &rgen.Event{Time: rgen.P(int64(1_700_000_100))}, Nyct: &rgen.NyctSTU{Scheduled: rgen.P("1")}}}}})
+	}
+	for i := 0; len(m.Entities) < n; i++ {
+		src := tus[i%len(tus)]
+		tu := *src.TU
+		d := tu.Trip
+		d.TripID = rgen.P(fmt.Sprintf("%sx%d", *src.TU.Trip.TripID, i))
+		ny := *d.Nyct
+		if ny.TrainID != nil {
+			ny.TrainID = rgen.P(fmt.Sprintf("%s/%d", *ny.TrainID, i))
+		}
+		d.Nyct = &ny
+		tu.Trip = d
+		m.Entities = append(m.Entities, rgen.Entity{ID: fmt.Sprintf("big%d", i), TU: &tu})
+	}
+	return m
+}
+
+// TestC16Large: NYCT feeds of 9001 and 70003 entities (beyond 65,536, counts that leave a remainder for any number of chunks).
+func TestC16Large(t *testing.T) {
+	for _, n := range []int{9001, 70003} {
+		n := n
+		t.Run(fmt.Sprint(n), func(outer *testing.T) {
+			fail := ""
+			defer func() {
+				if fail != "" {
+					outer.Fatalf("%s", fail)
+				}
+			}()
+			rapid.Check(outer, func(t *rapid.T) {
+				zone := rapid.SampledFrom([]string{"", "America/New_York"}).Draw(t, "zone")
+				m := nyctLarge(t, zone, n)
+				c := CaseC16{Zone: zone, Msg: m, Opts: rgen.NyctTripsOpts{FilterStale: rapid.Bool().Draw(t, "filter"), PreserveM: rapid.Bool().Draw(t, "preserveM")}}
+				c.Env = genEnv(t)
+				c16Rec.Eval(fmt.Sprintf("large:entities>=%d", n))
+				if len(m.Entities) > 65536 {
+					c16Rec.Class("large:reached:entities>65536")
+				}
+				c16Rec.NontrivialCase(vt.Fingerprint([]any{zone, n, c.Opts, len(m.Entities)}), func() any {
+					return map[string]any{"zone": zone, "entities": len(m.Entities), "options": c.Opts}
+				})
+				if msg := vt.Try(c16Rec, c, checkC16); msg != "" && fail == "" {
+					fail = msg
+				}
+			})
+		})
+	}
+}
